@@ -360,6 +360,31 @@ pub fn heartbeat(class: &str) {
     }
 }
 
+static RUN_ID: std::sync::Mutex<(String, Option<String>)> = std::sync::Mutex::new((String::new(), None));
+
+/// remember which property this process monitors and where its report goes (for `fatal`)
+pub fn set_run(opts: &Opts) {
+    if let Ok(mut r) = RUN_ID.lock() {
+        let prop = if opts.prop == "h1" { opts.part.clone().unwrap_or_else(|| "C03".into()) } else { opts.prop.to_uppercase() };
+        *r = (prop, opts.out.clone());
+    }
+}
+
+/// The library refused something the harness itself needs in order to go on (a valid key it has
+/// just generated, its own freshly sealed token) at a point where no report is at hand. That is
+/// an observation about the library, not a harness error: the witness is written next to the report
+/// (`<out>.fatal`) and the process exits with status 4; the driver turns it into a violation.
+pub fn fatal(backend: &str, what: &str, detail: serde_json::Value) -> ! {
+    let (prop, out) = RUN_ID.lock().map(|r| r.clone()).unwrap_or_default();
+    let prop = if prop.len() > 3 && prop.starts_with('C') { prop[..3].to_string() } else { prop };
+    let marker = serde_json::json!({"sig": format!("{prop}|{backend}|{what}"), "witness": detail});
+    if let Some(out) = &out {
+        let _ = std::fs::write(format!("{out}.fatal"), serde_json::to_vec(&marker).unwrap());
+    }
+    eprintln!("pvmon: {prop}|{backend}|{what}: {detail}");
+    std::process::exit(4);
+}
+
 #[cfg(not(miri))]
 pub fn start_watchdog(opts: &Opts) {
     let secs: u64 = std::env::var("PVMON_STALL_SECS").ok().and_then(|s| s.parse().ok()).unwrap_or(600);
